@@ -13,6 +13,10 @@ RULE = ('random op sequences on one repacketizer (init / cat / out / out_range /
         'pad / unpad / multistream pad / unpad (1..8 streams, in place) for new_len = len-1, len, len+1..3, +250..260, up to '
         '+1500; a case is distinct by its (op, outcome kind) class')
 NOT_COVERED = [
+    'pad_spec, unpad_pad, pad_same_packet_inputs, pad_same_decode, ms_pad_spec, ms_pad_bytes (OK branch) and ms_pad_same_decode require the '
+    'padding of the (last) packet to be extension-free (extension count 0: no padding, zero padding, anything the library itself pads); '
+    'opus_packet_pad / unpad on packets WITH extensions are covered through out_range_impl (out_roundtrip_ext, out_nothing_gathered), the tie '
+    'and the search only',
     'extension carriage (out_roundtrip_ext) is proved for out_range_impl; the exact SIZE clauses (BUFFER_TOO_SMALL iff ...) with extensions are '
     'proved only as the equation outRangeImpl_ext_eq_gen in OpusProofs (not restated as a property theorem), and opus_packet_pad_impl / '
     'unpad on packets WITH extensions are covered through out_range_impl only (pad_spec / unpad_spec assume extension-free padding)',
@@ -36,7 +40,7 @@ REQUIRED_THEOREMS = [
     'OpusProps.C07.out_1277_suffices',
     'OpusProps.C07.pad_spec', 'OpusProps.C07.pad_rejects', 'OpusProps.C07.unpad_spec', 'OpusProps.C07.unpad_canonical',
     'OpusProps.C07.unpad_idempotent', 'OpusProps.C07.unpad_pad', 'OpusProps.C07.emitted_padding_ext_free', 'OpusProps.C07.ms_unpad_spec', 'OpusProps.C07.ms_pad_spec',
-    'OpusProps.C07.out_roundtrip_ext', 'OpusProps.C07.out_roundtrip_ext_nopad', 'OpusProps.C07.out_roundtrip_ext_norepeat', 'OpusProps.C07.out_malformed_padding_dropped',
+    'OpusProps.C07.out_roundtrip_ext', 'OpusProps.C07.out_roundtrip_ext_nopad', 'OpusProps.C07.out_roundtrip_ext_norepeat', 'OpusProps.C07.out_malformed_padding_dropped', 'OpusProps.C07.out_nothing_gathered',
     'OpusProps.C07.unpad_in_place', 'OpusProps.C07.ms_unpad_in_place', 'OpusProps.C07.move_frames_safe',
     'OpusProps.C07.pad_same_packet_inputs', 'OpusProps.C07.pad_same_decode', 'OpusProps.C07.int_ranges_noext',
     'OpusProps.C07.int_ranges_ext', 'OpusProps.C07.int_ranges_ext_tight', 'OpusProps.C07.ms_unpad_bytes', 'OpusProps.C07.ms_pad_bytes',
